@@ -81,8 +81,8 @@ func (g *G) Expr(cx ExprCtx) influxql.Expr {
 	return climb(items, &pos, 1)
 }
 
-var intSpellings = []string{"1", "0", "10", "9223372036854775807", "9223372036854775808", "18446744073709551615"}
-var numSpellings = []string{"1.5", ".5", "1.", "0.0", "100000000000000000000.0", "0.0000001"}
+var intSpellings = []string{"1", "0", "10", "9223372036854775807", "9223372036854775808", "18446744073709551615", "010", "08"}
+var numSpellings = []string{"1.5", ".5", "1.", "0.0", "100000000000000000000.0", "0.0000001", "010.50"}
 var castTypes = []struct {
 	text string
 	kw   bool
